@@ -58,9 +58,60 @@ def match_known(prop, key, known):
 
 
 # ------------------------------------------------------------------ worker side
+def _concrete_instance(modname, inst, t0):
+    """instances flagged `concrete`: fixed inputs run on the ordinary float64 build in a fresh process (real LAPACK, no stubs).
+    They witness recorded findings the solver-based encoding cannot reach and are reported separately in the evidence."""
+    env = dict(os.environ)
+    p = subprocess.run([PY, os.path.join(VERIF, "checks", "common.py"), "--concrete", json.dumps(dict(module=modname, inst=inst))],
+                       capture_output=True, text=True, timeout=int(inst.get("limit_s", 600)), env=env)
+    line = [l for l in p.stdout.splitlines() if l.startswith("{")]
+    base = dict(label=inst.get("label"), inst=inst, wall_s=time.time() - t0, paths=1, by_normal_form=0, stats={}, unknown=[], violations=[], exceptions=[],
+                violations_full=[], exceptions_full=[], samples=[], inconclusive=None, concrete=True)
+    if not line:
+        base.update(ok=False, obligations=0, proved=0, witnessed={}, inconclusive="concrete run produced no result: %s" % (p.stdout[-500:] + p.stderr[-800:]))
+        return base
+    out = json.loads(line[-1])
+    res = out["results"]
+    base.update(obligations=len(res), proved=sum(1 for r in res if r[1]), witnessed={r[0]: True for r in res},
+                violations_full=[dict(name=r[0], env={}, detail=None, goal=None) for r in res if not r[1]],
+                exceptions_full=([dict(exc=out["exception"], env={}, tb=out["exception"][2] if len(out["exception"]) > 2 else None)] if out.get("exception") else []))
+    base["violations"] = [dict(name=v["name"]) for v in base["violations_full"]]
+    base["exceptions"] = [e["exc"][:2] for e in base["exceptions_full"]]
+    base["ok"] = not base["violations_full"] and not base["exceptions_full"]
+    return base
+
+
+def concrete_main(arg):
+    rec = json.loads(arg)
+    sys.path.insert(0, VERIF)
+    sys.path.insert(0, REPO)
+    import logging
+    logging.disable(logging.CRITICAL)
+    import types
+    if "print_tree" not in sys.modules:
+        m = types.ModuleType("print_tree")
+        m.print_tree = type("print_tree", (), {"__init__": lambda self, *a, **k: setattr(self, "rows", [])})
+        sys.modules["print_tree"] = m
+    from symnum import engine
+    mod = importlib.import_module(rec["module"])
+    harness = mod.make_harness(rec["inst"])
+    results, inputs, exc = engine.run_concrete(harness, {})
+    if exc is not None and exc[0] == "PreconditionFailed":
+        exc = None
+    print(json.dumps(dict(results=[[n, bool(ok)] for (n, ok, info) in (results or [])], exception=list(exc) if exc else None)))
+    return 0
+
+
 def _worker(job):
     modname, inst, opts = job
     t0 = time.time()
+    if inst.get("concrete"):
+        try:
+            return _concrete_instance(modname, inst, t0)
+        except BaseException as ex:  # noqa
+            return dict(label=inst.get("label"), inst=inst, ok=False, crashed=traceback.format_exc()[-3000:], wall_s=time.time() - t0,
+                        paths=0, obligations=0, proved=0, by_normal_form=0, stats={}, witnessed={}, unknown=[], violations=[], exceptions=[],
+                        violations_full=[], exceptions_full=[], samples=[], inconclusive="concrete run crashed: %r" % (ex,))
     import signal
 
     def _alarm(signum, frame):
@@ -267,6 +318,7 @@ def finish(prop, modname, tier, seed, results, explanation, assumptions, trusted
         inconclusive=[list(x) for x in inconclusive[:10]],
         not_reproduced=[list(x) for x in not_reproduced[:10]],
         instance_labels=[r["label"] for r in results][:60],
+        concrete_witness_instances=[r["label"] for r in results if r.get("concrete")],
     )
     if extra_cov:
         cov.update(extra_cov)
@@ -298,6 +350,9 @@ def finish(prop, modname, tier, seed, results, explanation, assumptions, trusted
 if __name__ == "__main__":
     ap = argparse.ArgumentParser()
     ap.add_argument("--replay")
+    ap.add_argument("--concrete")
     a = ap.parse_args()
     if a.replay:
         sys.exit(replay_file(a.replay))
+    if a.concrete:
+        sys.exit(concrete_main(a.concrete))
